@@ -71,6 +71,60 @@ def rand_perm(rng, n):
     return p
 
 
+def structured_perm(rng, n):
+    """permutations with structure random ones almost never have: fixed tails/heads, involutions, short cycles"""
+    k = rng.choice(["id", "tailfix", "headfix", "transp", "rev", "cycle", "involution", "random"])
+    p = list(range(n))
+    if k == "tailfix" and n >= 2:
+        m = rng.randrange(1, n)
+        q = p[:m]
+        rng.shuffle(q)
+        p = q + p[m:]
+    elif k == "headfix" and n >= 2:
+        m = rng.randrange(1, n)
+        q = p[m:]
+        rng.shuffle(q)
+        p = p[:m] + q
+    elif k == "transp" and n >= 2:
+        i, j = rng.sample(range(n), 2)
+        p[i], p[j] = p[j], p[i]
+    elif k == "rev":
+        p.reverse()
+    elif k == "cycle" and n >= 2:
+        m = rng.randrange(2, n + 1)
+        p = p[1:m] + p[:1] + p[m:]
+    elif k == "involution":
+        idx = list(range(n))
+        rng.shuffle(idx)
+        for a in range(0, n - 1, 2):
+            if rng.random() < 0.6:
+                i, j = idx[a], idx[a + 1]
+                p[i], p[j] = p[j], p[i]
+    elif k == "random":
+        rng.shuffle(p)
+    return p
+
+
+def exhaustive_perm_cases():
+    """all permutations / pairs of permutations of length <= 4 through every permutation operation"""
+    import itertools
+    out = []
+    for n in (1, 2, 3, 4):
+        perms = [list(q) for q in itertools.permutations(range(n))]
+        for a in perms:
+            x = [100 + i for i in range(n)]
+            out.append("apply 2 %s %s" % (fmt_list(a), fmt_list(x)))
+            out.append("apply 4 %s %s" % (fmt_list(a), fmt_list(x)))
+            out.append("inverse %s" % fmt_list(a))
+            for b in perms:
+                out.append("concat %s %s" % (fmt_list(a), fmt_list(b)))
+        # all swap arrays
+        for sw in itertools.product(*[range(i, n) for i in range(n)]):
+            out.append("apply 3 %s %s" % (fmt_list(list(sw)), fmt_list([100 + i for i in range(n)])))
+            out.append("apply 5 %s %s" % (fmt_list(list(sw)), fmt_list([100 + i for i in range(n)])))
+    return out
+
+
 def gen_cases(rng, count, big=False):
     cases = []
     for _ in range(count):
@@ -100,18 +154,18 @@ def gen_cases(rng, count, big=False):
             if kind in (3, 5):
                 v = [rng.randrange(i, n) for i in range(n)]
             else:
-                v = rand_perm(rng, n)
+                v = structured_perm(rng, n) if rng.random() < 0.5 else rand_perm(rng, n)
             if rng.random() < 0.5:
                 cases.append("perm %d %s" % (kind, fmt_list(v)))
             else:
                 x = [rng.randrange(1000) for _ in range(n)]
                 cases.append("apply %d %s %s" % (kind, fmt_list(v), fmt_list(x)))
         elif k < 0.68:
-            n = rng.choice([1, 2, 3, 5, 8, 21])
-            if rng.random() < 0.5:
-                cases.append("concat %s %s" % (fmt_list(rand_perm(rng, n)), fmt_list(rand_perm(rng, n))))
+            n = rng.choice([1, 2, 3, 5, 6, 8, 21])
+            if rng.random() < 0.7:
+                cases.append("concat %s %s" % (fmt_list(structured_perm(rng, n)), fmt_list(structured_perm(rng, n))))
             else:
-                cases.append("inverse %s" % fmt_list(rand_perm(rng, n)))
+                cases.append("inverse %s" % fmt_list(structured_perm(rng, n)))
         elif k < 0.82:
             n_img, adj = gen_graph(rng, square=True, symmetric=True, max_n=mx + 2)
             if rng.random() < 0.5:
@@ -138,6 +192,8 @@ CORPUS = [
     # minimum_degree root with repeated adjacencies (degree > number of nodes)
     "cm 0 1 0 1 1 2 0 0",
     "cm 1 1 1 2 2 3 1 1 1 3 0 0 0",
+    # concat whose second factor fixes a tail (stale swap array if only a prefix is rebuilt)
+    "concat 4 2 3 0 1 4 0 1 3 2",
 ]
 
 
@@ -419,7 +475,7 @@ def main(argv):
     if args.replay:
         cases = [json.load(open(args.replay))["input"]]
     else:
-        cases = CORPUS + (gen_cases(rng, 3000) if args.tier == "quick" else gen_cases(rng, 150000, big=True))
+        cases = CORPUS + exhaustive_perm_cases() + (gen_cases(rng, 3000) if args.tier == "quick" else gen_cases(rng, 150000, big=True))
     st = vlib.Stream("adjacency", cases, [binary], vlib.driver_cmd(PROP), oracle=oracle, nontrivial=nontrivial,
                      describe=describe, signature=signature)
     stats_rule = ("random graphs (domain/image 0..14, empty lists, duplicates, isolated nodes, several components), "
